@@ -11,17 +11,19 @@ import (
 //
 // A list is stored under the keys string(Int32ToBytes(idx)): tag 02 + the LITTLE-endian index, in a bucket
 // that bbolt keeps in byte order, so key order is index order only up to 255; the size marker is an int32.
-// Lists / maps / string lists of 255, 256, 257, 258, 300, 511, 512, 513 and 1000 elements (4096 / 4097 in the
-// thorough tier), top level, inside a map, inside a list, written over a longer / shorter predecessor;
+// Lists / maps / string lists of 255, 256, 257, 300, 513 and 1000 elements (258, 511, 512, 767..769, 1023..1025,
+// 2000, 4096, 4097 in the thorough tier), top level, inside a map, inside a list, written over a longer / shorter predecessor;
 // compound keys of that many components; components, list elements, map keys and field names of
-// 127 / 128 / 255 / 256 bytes (one- / two-byte varint, one-byte length).  Elements are pairwise distinct, so
+// 127 / 128 / 255 / 256 bytes (one- / two-byte varint, one-byte length; 16383 / 16384 in the thorough tier).  Elements are pairwise distinct, so
 // that any permutation, truncation or wrap-around shows.
 func c13GenSizes(tier string, r *rng, out *bufio.Writer) {
-	sizes := []int{255, 256, 257, 258, 300, 511, 512, 513}
+	sizes := []int{255, 256, 257, 300, 513}
 	big := []int{1000}
+	lens := []int{126, 127, 128, 129, 254, 255, 256, 257}
 	if tier == "thorough" {
-		sizes = append(sizes, 767, 768, 769, 1023, 1024, 1025)
+		sizes = []int{255, 256, 257, 258, 300, 511, 512, 513, 767, 768, 769, 1023, 1024, 1025}
 		big = []int{1000, 2000, 4096, 4097}
+		lens = append(lens, 16383, 16384)
 	}
 	elem := func(i int, style int) *c13Val {
 		switch style {
@@ -101,7 +103,7 @@ func c13GenSizes(tier string, r *rng, out *bufio.Writer) {
 		one(op(true, "sl", "s", v), op(false, "gsl", "s", &c13Val{kind: 'L', vals: v.vals[:n/2]}))
 	}
 	// element / key / field-name lengths around the one-byte boundaries
-	for _, n := range []int{126, 127, 128, 129, 254, 255, 256, 257, 16383, 16384} {
+	for _, n := range lens {
 		x := strings.Repeat("q", n)
 		one(op(false, "sl", "s", &c13Val{kind: 'L', vals: []*c13Val{{kind: 'S', s: x}, {kind: 'S', s: x + "a"}, {kind: 'S', s: x[1:]}}}))
 		one(op(false, "map", "m", &c13Val{kind: 'M', keys: []string{x, x[1:] + "r"}, vals: []*c13Val{{kind: 'S', s: x}, list(2, 0)}}))
